@@ -109,7 +109,21 @@ def run_one(sim, params):
             except Exception as e:
                 errors.append((name, e))
             inflight[name] = None
-            # after the link ended: one more call of every kind, old and new sockets
+            # an application that tries again at once when a call failed: the same calls right now (possibly while the
+            # termination is still going on) ...
+            if state["broken"] and not ended.is_set() and sim.chance("again.now", 0.5):
+                for label, call in post_calls(llc):
+                    inflight[name] = "again:" + label
+                    try:
+                        call()
+                    except nfc.llcp.Error:
+                        pass
+                    except kernel.TaskKilled:
+                        raise
+                    except Exception as e:
+                        errors.append((name + " again:" + label, e))
+                inflight[name] = None
+            # ... and after the link ended: one more call of every kind, old and new sockets
             ended.wait()
             for label, call in post_calls(llc):
                 inflight[name] = "post:" + label
